@@ -60,9 +60,10 @@ Wake(s) == /\ st[s].pc = "sleep" /\ st[s].rem = 0
            /\ lock' = IF lock = s THEN 0 ELSE lock
            /\ st' = [st EXCEPT ![s] = Idle] /\ Deliver(st[s].d)
            /\ UNCHANGED <<now, nops>>
-\* sleeps are exact (assumption: no oversleep): a sleeper whose time is up wakes before time moves on
+\* sleeps are exact (assumption: no oversleep): a sleeper whose time is up wakes before time moves on; so are I/O latencies: the
+\* second clock reading follows the underlying read at once (an I/O that "takes longer" is an I/O with a larger lat, i.e. slow I/O)
 Tick == /\ now < MaxTime /\ \E s \in Streams : st[s].rem > 0
-        /\ \A s \in Streams : ~(st[s].pc = "sleep" /\ st[s].rem = 0)
+        /\ \A s \in Streams : ~(st[s].pc \in {"sleep", "io"} /\ st[s].rem = 0)
         /\ now' = now + 1
         /\ st' = [s \in Streams |-> IF st[s].rem > 0 THEN [st[s] EXCEPT !.rem = @ - 1] ELSE st[s]]
         /\ UNCHANGED <<lock, debt, excess, lastT, nops>>
